@@ -1,12 +1,17 @@
 import QlibcModel.Props.C07
 #print axioms Qlibc.Props.C07.wf_init
 #print axioms Qlibc.Props.C07.wf_initMem
+#print axioms Qlibc.Props.C07.init_total
 #print axioms Qlibc.Props.C07.wf_put
 #print axioms Qlibc.Props.C07.wf_remove
 #print axioms Qlibc.Props.C07.wf_remove_by_idx
 #print axioms Qlibc.Props.C07.remove_by_idx_out_of_range
+#print axioms Qlibc.Props.C07.getnext_total
+#print axioms Qlibc.Props.C07.inv_identity
 #print axioms Qlibc.Props.C07.wf_clear
 #print axioms Qlibc.Props.C07.wf_reachable
 #print axioms Qlibc.Props.C07.wf_check_sound
 #print axioms Qlibc.Props.C07.wf_check_iff
 #print axioms Qlibc.Props.C07.attach_same
+#print axioms Qlibc.Shapes.Harr.widths_as_modelled
+#print axioms Qlibc.Shapes.Harr.no_hidden_static_state
